@@ -322,11 +322,15 @@ pub fn main(tier: Tier, replay: Option<serde_json::Value>) -> i32 {
     for p in &progs {
         items.push(Item { name: format!("program/{}", p.name), prog: e1::program_prog(&alpha, p) });
     }
+    // labels of boundary lengths / contents on one small circuit
+    for (ln, _) in e1::label_menu(tier) {
+        items.push(Item { name: ln, prog: sized(9, &Shape::Pi(vec![4, -1])) });
+    }
     if let Some(n) = &replay_name {
         items.retain(|i| &i.name == n);
     }
     run.bound("circuits", json!(items.len()));
-    let outs = crate::par::par_map(&items, |it| compare_routes(&it.prog, &full, if it.name.len() % 2 == 0 { b"" } else { b"c15-label" }));
+    let outs = crate::par::par_map(&items, |it| compare_routes(&it.prog, &full, &e1::label_of(&it.name, tier, b"c15-label")));
     let mut layouts = std::collections::HashSet::new();
     for (it, o) in items.iter().zip(outs) {
         run.transitions += 1;
